@@ -670,7 +670,7 @@ impl Monitor for C02 {
             if i == migrate_at {
                 // the token was deployed by an older release (no by-spender index) and is upgraded now:
                 // no balance and no allowance may change, nobody gains authority over anybody's tokens
-                let v = *h.rng.pick(&["0.13.4", "0.9.1", "0.13.0", "0.2.3", "1.1.2", "2.0.0", "0.7.0", "0.10.3", "0.1.0", "0.14.0", "0.16.0"]);
+                let v = *h.rng.pick(&["0.13.4", "0.9.1", "0.13.0", "0.2.3", "1.1.2", "2.0.0", "0.7.0", "0.10.3", "0.1.0", "0.14.0", "0.16.0", "0.12.0-alpha1", "0.10.0-soon4", "0.13.0-rc.2"]);
                 let keys: Vec<Vec<u8>> = c.w.store.data.keys().filter(|k| k.windows(17).any(|w| w == b"allowance_spender")).cloned().collect();
                 if v.starts_with("0.") {
                     for k in keys {
